@@ -279,6 +279,20 @@ theorem delete_present (e : Env) (t : Tbl) (n : Str)
 
 example : (step (Env.fixed []) [("b.txt".toList, [1])] (.del (some "X/B.TXT".toList))).1 = .code 0 := by decide
 
+/-! ## Names that differ only in path separators -/
+
+/-- For a name without an absolute prefix (no leading separator, no `:/` or `:\\`), replacing
+    back-slashes by forward slashes gives the same key: the two spellings denote the same file in
+    every operation of the buffer API. -/
+theorem fp1_separator_insensitive (n : Str) (h : absPrefix n = []) : fp1 (n.map toSlash) = fp1 n :=
+  reduce_map_toSlash n h
+
+example : absPrefix "p\\q\\..\\a.txt".toList = [] ∧
+    fp1 ("p\\q\\..\\a.txt".toList.map toSlash) = "p/a.txt".toList := by decide
+
+/-- …whereas inside an absolute prefix the separator is kept verbatim, so these are different names. -/
+example : fp1 "\\r\\a.txt".toList = "\\r/a.txt".toList ∧ fp1 "/r/a.txt".toList = "/r/a.txt".toList := by decide
+
 /-! ## The property over whole histories -/
 
 /-- **Present exactly when added and not deleted since** (every model variant).  After any history
